@@ -67,6 +67,14 @@ def gen_inputs(rng, spec, n=None, capacity_ok=None):
             for key in ("load", "given"):
                 if key in d:
                     d[key] = [float(round(x)) for x in d[key]]
+    # a series that never changes (a unit always on, a constant load) is often written as one value
+    inp["constants_single"] = bool(rng.random() < 0.3)
+    if inp["constants_single"] and n > 1:
+        for d in inp["comp"].values():
+            if "status" in d and rng.random() < 0.5:
+                d["status"] = [True] * n
+            if "load" in d and rng.random() < 0.3:
+                d["load"] = [d["load"][0]] * n
     return inp
 
 
@@ -83,6 +91,8 @@ def apply_inputs(plant, inp, copy=True):
         """a fresh array, or (alias mode) the one array object already made for the same series"""
         if dt is int and not all(float(v).is_integer() for v in values):
             dt = float
+        if inp.get("constants_single") and len(values) > 1 and len(set(values)) == 1:
+            return np.array(values[:1], dtype=dt)          # a single value standing for a constant series
         if not inp.get("alias"):
             return np.array(values, dtype=dt)
         key = (np.dtype(dt).name, tuple(values))
@@ -118,7 +128,7 @@ def apply_inputs(plant, inp, copy=True):
     swbs = sorted({c["swb"] for c in plant.spec["electric"]})
     for key, val in [("steps", "1" if n == 1 else ("2-8" if n <= 8 else ("9-59" if n < 60 else "60+"))), ("status", st_dt.__name__), ("breaker", br_dt.__name__),
                      ("power", pw_dt.__name__), ("mode", inp.get("dtype", {}).get("mode", "float")), ("interval", "int" if dt_int else "float"),
-                     ("alias", bool(inp.get("alias"))), ("switchboard-numbers", "1..n" if swbs == list(range(1, len(swbs) + 1)) else "other"),
+                     ("alias", bool(inp.get("alias"))), ("constants", "single-value" if inp.get("constants_single") else "written-out"), ("switchboard-numbers", "1..n" if swbs == list(range(1, len(swbs) + 1)) else "other"),
                      ("component-list", "permuted" if plant.spec.get("order") else "as-generated"),
                      ("names", plant.spec.get("relabelled", "unique"))]:
         core.axis(key, val)
